@@ -2666,6 +2666,7 @@ func (p *parser) parseLambdaExpr(allowTuple, allowCmd, allowRangeExpr bool) (x a
 		var rhs []ast.Expr
 		var body *ast.BlockStmt
 		var lhsHasParen, rhsHasParen bool
+		var last token.Pos // end of the lambda expression
 		p.next()
 		switch p.tok {
 		case token.LPAREN: // (
@@ -2679,13 +2680,14 @@ func (p *parser) parseLambdaExpr(allowTuple, allowCmd, allowRangeExpr bool) (x a
 				}
 				p.next()
 			}
-			p.expect(token.RPAREN)
+			last = p.expect(token.RPAREN) + 1
 		case token.LBRACE: // {
 			p.openLabelScope() // a lambda body is a function body: labels and branch targets are local to it
 			body = p.parseBlockStmt()
 			p.closeLabelScope()
 		default:
 			rhs = []ast.Expr{p.parseExpr(false, false, false)}
+			last = rhs[0].End()
 		}
 		var lhs []*ast.Ident
 		if x != nil {
@@ -2727,7 +2729,7 @@ func (p *parser) parseLambdaExpr(allowTuple, allowCmd, allowRangeExpr bool) (x a
 		}
 		return &ast.LambdaExpr{
 			First:       first,
-			Last:        p.pos,
+			Last:        last,
 			Lhs:         lhs,
 			Rarrow:      rarrow,
 			Rhs:         rhs,
